@@ -202,6 +202,7 @@ func runC12(t *rapid.T) {
 		b = gen.CSVBounds{MaxCols: 6, MaxRows: 12, Long: true, BigRows: true}
 	} else {
 		b.Long = true
+		b.BigRows, b.BigRare = true, true
 	}
 	c := gen.DrawCSV(t, b)
 	p := drawPlan(t, c.Doc, c.Delim)
@@ -258,6 +259,15 @@ func runC12(t *rapid.T) {
 		}
 		if len(c.Doc) > 1024 {
 			core.Probe("doc-over-1KiB")
+		}
+	}
+	if len(c.Rows) >= 1000 {
+		core.Probe("rows>=1000")
+		if c.RowCountHint > 2000 {
+			core.Probe("rows>=1000-with-hint>2000")
+			if len(c.Rows) > c.RowCountHint {
+				core.Probe("more-rows-than-hinted")
+			}
 		}
 	}
 	if p.Read.EOFWithData {
